@@ -56,7 +56,7 @@ def evaluate(name, lane_dir, ids, tier, with_c07):
     bins = "--bin verif --bin cttrace" if (with_c07 or name.startswith("C07")) else "--bin verif"
     env.setdefault("VERIF_THREADS", "6")
     rc, out = sh(f"cargo build --release --offline --quiet {bins} 2>&1 | tail -20", cwd=f"{lane_dir}/harness", env=env, timeout=1800)
-    if not os.path.exists(f"{lane_dir}/target/release/verif") or "error" in out:
+    if not os.path.exists(f"{lane_dir}/target/release/verif") or any(l.startswith("error") for l in out.splitlines()):
         res["error"] = "harness does not build against the changed tree: " + out[-600:]
         return res
     for pid in ids:
